@@ -375,6 +375,9 @@ def parse(res, stdout, stderr, anchors, woven_dir=None):
             tags = sorted(u)
         if not tags:
             tags = list(fn["tags"]) if (fn and fn.get("tags")) else ["C01"]
+        if clause is not None and clause["kind"] == "requires" and re.search(r"\.(wf|wf_core|wf_geom|wf_static|pre_reflow)\(\)", clause.get("text") or ""):
+            # the invariant not holding where a callee needs it is a C01 / C02 matter whatever the caller is about
+            tags = sorted(set(tags) | {"C01", "C02"})
         key = (name, msg)
         if key in seen:
             continue
